@@ -143,3 +143,33 @@ def gen(rng):
         if p:
             return p
     raise RuntimeError("no aligned group pair")
+
+
+def gen_shared(rng):
+    """One group used by several declarations, with and without constraints, in any order (the group must
+    be expanded per use site).  Returns (text with groups, hand-inlined text)."""
+    enums = "enum Ge : 8 { GA = 1, GB = 2, GC = 0x30 }\n"
+    w1, w2 = rng.choice([(8, 8), (3, 5), (12, 4), (16, 8)])
+    gfields = [("len", w1), ("kind", "Ge"), ("seq", w2)]
+    group = "group Header { len: %d, kind: Ge, seq: %d }\n" % (w1, w2)
+    n = rng.randint(2, 5)
+    with_g, inl = [], []
+    for i in range(n):
+        cs = {}
+        if rng.random() < 0.6:
+            for (fid, ty) in gfields:
+                if rng.random() < 0.5:
+                    cs[fid] = rng.choice(["GA", "GB", "GC"]) if ty == "Ge" else str(rng.randrange(1 << ty))
+        use = "Header" + ((" { %s }" % ", ".join("%s = %s" % kv for kv in cs.items())) if cs else "")
+        flat = []
+        for (fid, ty) in gfields:
+            if fid in cs:
+                flat.append("_fixed_ = %s : %s" % (cs[fid], ty))
+            else:
+                flat.append("%s: %s" % (fid, ty))
+        tail = "x%d: %d" % (i, rng.choice([8, 16]))
+        with_g.append("packet Msg%d {\n  %s,\n  %s\n}\n" % (i, use, tail))
+        inl.append("packet Msg%d {\n  %s,\n  %s\n}\n" % (i, ",\n  ".join(flat), tail))
+    e = rng.choice(["little", "big"])
+    head = "%s_endian_packets\n%s" % (e, enums)
+    return head + group + "".join(with_g), head + "".join(inl)
